@@ -130,7 +130,7 @@ Example mon_flags_wrong_ship_id :
       BReport 8 false; BReport 13 false; BReport 19 false; BReport 22 false; BReport 24 false;
       BReport 26 false; BReport 27 false; BReport 31 false; BReport 36 false;
       BEv (mkEv (CRecv NotDatagram NoClose (MAcc (AccId false false))) false false true None);
-      BReport 37 false; BSetup]) = [40].
+      BReport 37 false; BSetup]) = [40; 44].
 Proof. vm_compute. reflexivity. Qed.
 
 (* a run of the model that completes the handshake exists: the hypotheses of the
